@@ -3,6 +3,7 @@
   Property theorems only.
 -/
 import SplVerif.Model.Features
+import SplVerif.Lemmas.Cursor
 
 namespace Spl.C12
 open Spl.Feat
@@ -115,5 +116,32 @@ theorem enter_refuses_duplicate {α} (t : List (List Char × α)) (k : List Char
     have hp := List.find?_some hf
     have : t.any (fun e => e.1 == k) = true := List.any_eq_true.mpr ⟨e, hm, hp⟩
     simp [this]
+
+
+/-! ### the identifier under the cursor -/
+
+/-- **A reported identifier range, sent back, addresses that identifier** (C08's last sentence, and the entry point
+    of go-to, references, rename, hover and signature help).  For every document whose token vector is the
+    tokenisation of its text (`AnalyzedSource::new`, and by C07 every update, guarantee this) and every identifier
+    token `t` of it: a request at the position the server reports for the start of `t` resolves to exactly that
+    identifier with exactly its range — multi-byte and astral characters, CRLF and lone CR in front of it included. -/
+theorem reported_start_addresses_identifier (d : AnalyzedSource) (hinv : lex d.text = .ok d.tokens) (t : Token)
+    (ht : t ∈ lexL d.text 0) (name : List Char) (hty : t.ty = .Ident name) (c : Cursor)
+    (hc : docCursor d (asPosition t.range.lo d.text) = .ok c) : c.ident = some ⟨name, t.range⟩ := by
+  obtain ⟨_, hfind⟩ := CursorLemmas.start_addresses_token d.text d.tokens hinv t ht
+  simp only [docCursor] at hc
+  cases hf : findDecl d (insertionIndex (asPosition t.range.lo d.text) d.text) d.ast.decls with
+  | error e => simp [hf] at hc
+  | ok gd =>
+    simp only [hf, Except.ok.injEq] at hc
+    subst hc
+    simp only [Cursor.ident, hfind, hty]
+
+/-- … and so does every position inside the identifier: any byte index of its range finds it. -/
+theorem index_inside_addresses_identifier (d : AnalyzedSource) (hinv : lex d.text = .ok d.tokens) (t : Token)
+    (ht : t ∈ lexL d.text 0) (name : List Char) (hty : t.ty = .Ident name) (c : Cursor)
+    (hdoc : c.doc = d) (h1 : t.range.lo ≤ c.index) (h2 : c.index < t.range.hi) : c.ident = some ⟨name, t.range⟩ := by
+  have := CursorLemmas.index_finds_token d.text d.tokens hinv t ht c.index h1 h2
+  simp only [Cursor.ident, hdoc, this, hty]
 
 end Spl.C12
